@@ -170,9 +170,30 @@ def parse_tlc_stats(out):
     return st
 
 
-def model_check(module, cfg, timeout=900, workers=None, heap="8g", files=None):
+def spec_digest(extra=""):
+    h = hashlib.sha256()
+    for f in sorted(os.listdir(SPEC)):
+        if f.endswith(".tla") or f.endswith(".cfg"):
+            h.update(f.encode())
+            h.update(open(os.path.join(SPEC, f), "rb").read())
+    h.update(extra.encode())
+    return h.hexdigest()[:24]
+
+
+def model_check(module, cfg, timeout=900, workers=None, heap="8g", files=None, cache=False):
     """Exhaustive check that must pass: a violation *in the intended-design model* is a
-    problem of the specification, i.e. infrastructure, not a verdict about the code."""
+    problem of the specification, i.e. infrastructure, not a verdict about the code.
+    cache=True (thorough tier, where one run takes tens of minutes and seven properties share it):
+    the result of a passed run is kept under .cache/mc keyed by the content of every spec file, the
+    module, the configuration and the extra files; VERIF_NO_MC_CACHE=1 forces a fresh run."""
+    key = None
+    if cache and not os.environ.get("VERIF_NO_MC_CACHE"):
+        key = os.path.join(CACHE, "mc", spec_digest(module + "|" + cfg + "|" + json.dumps(files or {}, sort_keys=True)) + ".json")
+        if os.path.exists(key):
+            st = json.load(open(key))
+            st["cached"] = True
+            log("[tlc] %s/%s: result of the identical specification reused (%d distinct states, %.0f s when it ran)" % (module, cfg, st["distinct"], st.get("wall_s", 0)))
+            return st
     out, st = tlc(module, cfg, workers=workers, timeout=timeout, heap=heap, files=files)
     if st["error"]:
         raise Infra("TLC failed on %s/%s: %s\n%s" % (module, cfg, st["error"], out[-3000:]))
@@ -180,6 +201,9 @@ def model_check(module, cfg, timeout=900, workers=None, heap="8g", files=None):
         raise Infra("the specification itself violates %s in %s/%s - fix the model\n%s" % (st["violation"], module, cfg, out[-4000:]))
     if not st["distinct"]:
         raise Infra("TLC reported no states for %s/%s\n%s" % (module, cfg, out[-2000:]))
+    if key:
+        os.makedirs(os.path.dirname(key), exist_ok=True)
+        json.dump(st, open(key, "w"))
     return st
 
 
